@@ -90,6 +90,21 @@ impl Hist {
         let w = if to_device { &mut self.win_dev } else { &mut self.win_rdr };
         if accepted { *w = (n.max(w.0), 0); } else { w.1 += 1; }
     }
+    /// bytes of the staged response, if any
+    fn ready_bytes(&self) -> Option<Vec<u8>> {
+        match sess::peek_device(&self.sim.dev).state { Some(isomdl::presentation::device::State::ReadyToRespond(b)) => Some(b), _ => None }
+    }
+    /// after a device operation: if a NEW response was staged, one more device-direction encryption happened
+    fn note_device_encryption(&mut self, ctx: &mut Ctx, before: &Option<Vec<u8>>) {
+        let after = self.ready_bytes();
+        if let Some(b) = &after {
+            if before.as_ref() != Some(b) {
+                let ctr = sess::peek_device(&self.sim.dev).dev_ctr;
+                let iv = self.sim.iv_of(b, &[ctr]);
+                if iv != "none" { self.n_enc_d += 1; self.spec_iv(ctx, false, &iv); }
+            }
+        }
+    }
     fn spec13_line(&mut self, ctx: &mut Ctx, kind: &str, op: String) {
         if !self.spec13 { return; }
         ctx.emit.line("spec", &format!("spec:{}:{}", self.tag, kind), op, "true".into(),
@@ -117,6 +132,7 @@ impl Hist {
         msg
     }
     pub fn handle_request(&mut self, ctx: &mut Ctx, msg: &[u8], desc: &str) {
+        let rb = self.ready_bytes();
         let o = self.sim.dev.handle_request(msg);
         let real = format!("{} {}", dev_outcome_class(&o), self.sim.summary());
         self.window_spec(ctx, true, desc, dev_outcome_class(&o).starts_with("accepted"));
@@ -125,23 +141,28 @@ impl Hist {
         self.emit(ctx, format!("sess.handleRequest {desc}"), real);
         if malformed { let st = self.sim.dev_state_str(); self.spec13_line(ctx, "malformed", format!("spec.c13.malformed {st}")); }
         self.spec13_notstuck(ctx);
+        self.note_device_encryption(ctx, &rb);
     }
     /// prepare_response for the given doc types, all default elements permitted
     pub fn prepare(&mut self, ctx: &mut Ctx, doc_types: &[&str]) {
         let requests: Vec<ItemsRequest> = doc_types.iter().map(|d| ItemsRequest {
             doc_type: d.to_string(), namespaces: sess::simple_namespaces(&["family_name", "age_over_18", "not_held"]), request_info: None }).collect();
         let permitted = sess::permit_all(doc_types, &["family_name", "age_over_18", "not_held"]);
+        let rb = self.ready_bytes();
         self.sim.dev.prepare_response(&requests, permitted);
         // tape: which documents were prepared, in order, is read from the real state
         let p = sess::peek_device(&self.sim.dev);
         let docs = match &p.state {
             Some(isomdl::presentation::device::State::Signing(pr)) =>
                 pr.prepared_documents.iter().map(|d| self.sim.doc_id(&d.doc_type)).collect::<Vec<_>>(),
+            // nothing to sign: the response was staged at once
+            Some(isomdl::presentation::device::State::ReadyToRespond(_)) => vec![],
             _ => vec!["?".into()],
         };
         let real = self.sim.summary();
         self.emit(ctx, format!("sess.prepare {}", if docs.is_empty() { "-".into() } else { docs.join(",") }), real);
         self.spec13_notstuck(ctx);
+        self.note_device_encryption(ctx, &rb);
     }
     pub fn get_next(&mut self, ctx: &mut Ctx) -> Option<Vec<u8>> {
         let (real, payload) = match self.sim.dev.get_next_signature_payload() {
@@ -174,15 +195,12 @@ impl Hist {
             match &p.state { Some(isomdl::presentation::device::State::Signing(pr)) => pr.prepared_documents.iter().find(|d| d.id == uuid).map(|d| self.sim.doc_id(&d.doc_type)).unwrap_or("?".into()), _ => "?".into() } } };
         let pb = sess::peek_device(&self.sim.dev);
         let before = pb.dev_ctr;
-        let was_ready = matches!(&pb.state, Some(isomdl::presentation::device::State::ReadyToRespond(_)));
+        let rb = self.ready_bytes();
         let r = crate::guarded(std::panic::AssertUnwindSafe(|| self.sim.dev.submit_next_signature(sig)));
-        let mut enc_iv: Option<String> = None;
         let real = match r {
             Err(_) => "panic".to_string(),
             Ok(_) => {
                 let p = sess::peek_device(&self.sim.dev);
-                let became_ready = matches!(&p.state, Some(isomdl::presentation::device::State::ReadyToRespond(_)));
-                if became_ready && !was_ready { if let Some(isomdl::presentation::device::State::ReadyToRespond(b)) = &p.state { enc_iv = Some(self.sim.iv_of(b, &[p.dev_ctr])); } }
                 let iv = if p.dev_ctr != before {
                     match &p.state { Some(isomdl::presentation::device::State::ReadyToRespond(b)) => format!("iv={}", self.sim.iv_of(b, &[p.dev_ctr])), _ => "iv=lost".into() }
                 } else { "iv=none".into() };
@@ -193,7 +211,7 @@ impl Hist {
         let st_after = self.sim.dev_state_str();
         self.spec13_line(ctx, "submit", format!("spec.c13.submit {st_before} {st_after} {offered} {id}"));
         self.spec13_notstuck(ctx);
-        if let Some(iv) = enc_iv { if iv != "none" { self.n_enc_d += 1; self.spec_iv(ctx, false, &iv); } }
+        self.note_device_encryption(ctx, &rb);
     }
     pub fn response_ready(&mut self, ctx: &mut Ctx) {
         let real = self.sim.dev.response_ready().to_string();
